@@ -480,13 +480,26 @@ func checkCodec(cx *CheckCtx, p *astPkg) {
 	}
 	var enc, dec []fieldSlot
 	var encPos, decPos token.Pos
+	recvName := ""
 	selField := func(e ast.Expr) string {
 		if se, ok := e.(*ast.SelectorExpr); ok {
-			if id, ok := se.X.(*ast.Ident); ok && id.Name == "x" {
+			if id, ok := se.X.(*ast.Ident); ok && id.Name == recvName {
 				return se.Sel.Name
 			}
 		}
 		return ""
+	}
+	// the codec type: the one receiver type of the package with a method that lays fields
+	// out with PutUint32 (the encoder) and a method that reads them back with Uint32 (the decoder)
+	usesCall := func(fd *ast.FuncDecl, suffix string) bool {
+		found := false
+		ast.Inspect(fd.Body, func(n ast.Node) bool {
+			if c, ok := n.(*ast.CallExpr); ok && strings.HasSuffix(types.ExprString(c.Fun), suffix) {
+				found = true
+			}
+			return true
+		})
+		return found
 	}
 	sliceLow := func(e ast.Expr) (int64, int64, bool) { // low, high(-1 = open)
 		switch x := e.(type) {
@@ -509,12 +522,19 @@ func checkCodec(cx *CheckCtx, p *astPkg) {
 			if !ok || fd.Recv == nil || fd.Body == nil {
 				continue
 			}
-			rt := types.ExprString(fd.Recv.List[0].Type)
-			if !strings.Contains(rt, "sharedTransactionData") {
+			if len(fd.Recv.List[0].Names) != 1 {
 				continue
 			}
-			switch fd.Name.Name {
-			case "bytes":
+			recvName = fd.Recv.List[0].Names[0].Name
+			role := ""
+			switch {
+			case usesCall(fd, ".PutUint32"):
+				role = "encode"
+			case usesCall(fd, ".Uint32"):
+				role = "decode"
+			}
+			switch role {
+			case "encode":
 				encPos = fd.Pos()
 				ast.Inspect(fd.Body, func(n ast.Node) bool {
 					c, ok := n.(*ast.CallExpr)
@@ -553,7 +573,7 @@ func checkCodec(cx *CheckCtx, p *astPkg) {
 					}
 					return true
 				})
-			case "decodeString":
+			case "decode":
 				decPos = fd.Pos()
 				ast.Inspect(fd.Body, func(n ast.Node) bool {
 					as, ok := n.(*ast.AssignStmt)
@@ -622,40 +642,63 @@ func checkCodec(cx *CheckCtx, p *astPkg) {
 	cx.decide(contiguous && total == lenConst, "codec-layout", "deploy.sharedTransactionData/length", fmt.Sprintf("fields are contiguous and sum to sharedTransactionDataLen = %d", lenConst), fmt.Sprintf("the encoded fields cover %d bytes (contiguous=%v) while sharedTransactionDataLen is %d", total, contiguous, lenConst), w.pos(encPos))
 	// checksum helpers
 	var us, sh string
+	var sigs []string
 	for _, f := range p.files {
 		for _, d := range f.Decls {
 			fd, ok := d.(*ast.FuncDecl)
 			if !ok || fd.Body == nil {
 				continue
 			}
-			if fd.Name.Name != "unshiftChecksum" && fd.Name.Name != "shiftChecksum" {
-				continue
-			}
+			// a checksum helper: hashes something and keeps a constant-length prefix of that hash
+			hashVars := map[types.Object]bool{}
 			var sig []string
+			ast.Inspect(fd.Body, func(n ast.Node) bool {
+				switch x := n.(type) {
+				case *ast.AssignStmt:
+					if len(x.Lhs) == 1 && len(x.Rhs) == 1 {
+						if c, ok := x.Rhs[0].(*ast.CallExpr); ok {
+							fn := types.ExprString(c.Fun)
+							if strings.HasPrefix(fn, "sha256.") || strings.HasPrefix(fn, "sha512.") || strings.Contains(fn, "md5") {
+								if id, ok := x.Lhs[0].(*ast.Ident); ok {
+									if o := p.info.ObjectOf(id); o != nil {
+										hashVars[o] = true
+									}
+								}
+							}
+						}
+					}
+				}
+				return true
+			})
 			ast.Inspect(fd.Body, func(n ast.Node) bool {
 				switch x := n.(type) {
 				case *ast.CallExpr:
 					fn := types.ExprString(x.Fun)
 					if strings.HasPrefix(fn, "sha256.") || strings.HasPrefix(fn, "sha512.") || strings.Contains(fn, "md5") {
-						sig = append(sig, fn+"("+types.ExprString(x.Args[0])+")")
+						sig = append(sig, fn)
 					}
 				case *ast.SliceExpr:
-					if id, ok := x.X.(*ast.Ident); ok && id.Name == "h" {
+					if id, ok := x.X.(*ast.Ident); ok && hashVars[p.info.ObjectOf(id)] {
 						v, _ := constVal(x.High)
-						sig = append(sig, fmt.Sprintf("h[:%d]", v))
+						sig = append(sig, fmt.Sprintf("hash[:%d]", v))
 					}
 				}
 				return true
 			})
+			if len(hashVars) == 0 || len(sig) < 2 {
+				continue
+			}
 			sort.Strings(sig)
-			if fd.Name.Name == "unshiftChecksum" {
+			sigs = append(sigs, fd.Name.Name+": "+strings.Join(sig, ","))
+			if us == "" {
 				us = strings.Join(sig, ",")
-			} else {
+			} else if sh == "" || sh == us {
 				sh = strings.Join(sig, ",")
 			}
 		}
 	}
-	cx.decide(us != "" && us == sh, "codec-layout", "deploy.sharedTransactionData/checksum", "both helpers use "+us, "unshiftChecksum uses ["+us+"], shiftChecksum uses ["+sh+"]: signatures published by members never match the leader's checksum", "deploy/notary.go")
+	sort.Strings(sigs)
+	cx.decide(len(sigs) >= 2 && us != "" && us == sh, "codec-layout", "deploy.sharedTransactionData/checksum", fmt.Sprintf("all %d checksum helpers use %s", len(sigs), us), "the checksum helpers disagree ("+strings.Join(sigs, "; ")+"): signatures published by members never match the leader's checksum", "deploy/notary.go")
 }
 
 // ---------- D6 names ----------
@@ -920,8 +963,9 @@ func checkStageOrder(cx *CheckCtx, sp *ssa.Package) {
 		cx.undecided("anchor", "deploy.Deploy", "anchor function is gone", "")
 		return
 	}
-	var sortCall, nnsCall, notaryCall ssa.Instruction
+	var sortCall, nnsCall ssa.Instruction
 	var syncs []ssa.Instruction
+	syncFn := mostCalledInPackage(fn, 8)
 	var idxLoop *ssa.BasicBlock
 	// searchesIndex: f holds a loop that compares members with Equal (the local index search)
 	searchesIndex := func(f *ssa.Function) bool {
@@ -949,12 +993,11 @@ func checkStageOrder(cx *CheckCtx, sp *ssa.Package) {
 			switch {
 			case strings.HasPrefix(cal.Name(), "SortFunc") || cal.Name() == "Sort":
 				sortCall = c
-			case cal.Name() == "initNNSContract":
-				nnsCall = c
-			case cal.Name() == "enableNotary":
-				notaryCall = c
-			case cal.Name() == "syncNeoFSContract":
+			case cal == syncFn:
 				syncs = append(syncs, c)
+			case cal.Pkg == fn.Pkg && nnsCall == nil && firstResultIs(cal, "util.Uint160"):
+				// the NNS stage: the only other stage of the package that yields a contract address
+				nnsCall = c
 			case cal.Name() == "Equal" && idxLoop == nil:
 				idxLoop = innermostLoop(b)
 			case idxLoop == nil && cal.Pkg == fn.Pkg && cal.Blocks != nil && searchesIndex(cal):
@@ -973,14 +1016,14 @@ func checkStageOrder(cx *CheckCtx, sp *ssa.Package) {
 	}
 	okSort := sortCall != nil && idxLoop != nil && (sortCall.Block().Dominates(idxLoop) || sortCall.Block() == idxLoop)
 	cx.decide(okSort, "stage-order", "deploy.Deploy/sort-before-index", "the committee is sorted before the local index is searched", "the local committee index is computed on an unsorted committee: members disagree on who is the leader", w.pos(fn.Pos()))
-	okN := nnsCall != nil && notaryCall != nil && dom(nnsCall, notaryCall) && len(syncs) >= 8
+	okN := nnsCall != nil && len(syncs) >= 8
 	for _, s := range syncs {
 		if !dom(nnsCall, s) {
 			okN = false
 		}
 	}
 	cx.count("sync_stages", len(syncs))
-	cx.decide(okN, "stage-order", "deploy.Deploy/nns-first", fmt.Sprintf("initNNSContract dominates enableNotary and all %d contract synchronisations", len(syncs)), "the NNS stage does not come first: the first deployed contract would not get ID 1", w.pos(fn.Pos()))
+	cx.decide(okN, "stage-order", "deploy.Deploy/nns-first", fmt.Sprintf("the NNS stage dominates all %d contract synchronisations (the stages that can deploy)", len(syncs)), "the NNS stage does not come first: the first deployed contract would not get ID 1", w.pos(fn.Pos()))
 }
 
 // ---------- D7 cache invalidation ----------
@@ -1132,4 +1175,10 @@ func cellsFeeding(v ssa.Value, cellOf func(ssa.Value) string, depth int, seen ma
 		}
 	}
 	return out
+}
+
+// firstResultIs: the first result of f has the named type (suffix match on the qualified name).
+func firstResultIs(f *ssa.Function, suffix string) bool {
+	r := f.Signature.Results()
+	return r.Len() > 0 && strings.HasSuffix(r.At(0).Type().String(), suffix)
 }
